@@ -38,6 +38,7 @@ type deferred struct {
 	fnv  Val
 	pos  token.Pos
 	ins  *ssa.Defer
+	cond string // reach condition under which the defer statement was executed
 }
 
 type State struct {
@@ -403,7 +404,7 @@ func (fr *Frame) enterBlock(b *ssa.BasicBlock) *State {
 	for _, p := range preds[1:] {
 		if len(fr.out[p].defers) != len(st.defers) {
 			// keep the longest common prefix... conservative: mark unsupported
-			vc.note("conditional defer in " + fr.fn.String() + " (defer stacks differ at join; longest stack used)")
+			vc.note("conditional defer in " + fr.fn.String() + ": each deferred call runs only on the paths that executed its defer statement")
 			if len(fr.out[p].defers) > len(st.defers) {
 				st.defers = fr.out[p].defers
 			}
